@@ -246,8 +246,16 @@ def run_lossmin(case, qt, empi, detailed=True):
                 LossMinimizationEstimator().calc_estimate(qt, empi, loss, loss_opt, algo, prior_opt)
         except ValueError:
             pass
+    empi_in = empi
+    if case["loss"] in ("se_fast", "re_fast"):
+        # the tomography-based losses flatten the data themselves: (n, 1) columns are the same data to them as flat arrays
+        # (observed on the unchanged library; the generic losses reject columns, so they always get flat arrays)
+        from harness import reps
+
+        if reps._on() and reps.pick(("empi", [np.asarray(q, dtype=float).tobytes() for _, q in empi]), 3) == 0:
+            empi_in = [(n, np.asarray(q, dtype=float).reshape(-1, 1)) for n, q in empi]
     res = LossMinimizationEstimator().calc_estimate(
-        qt, empi, loss, loss_opt, algo, algo_opt,
+        qt, empi_in, loss, loss_opt, algo, algo_opt,
         is_computation_time_required=detailed, is_detailed_results_required=detailed,
     )
     return res, loss
